@@ -149,6 +149,10 @@ func fullName(fn *ssa.Function) string {
 
 func (e *Engine) callFunc(fr *frame, ins ssa.Instruction, fn *ssa.Function, args []Val, bind []Val, resT types.Type, reach string, heap Heap, cc *ssa.CallCommon) (Val, string) {
 	name := fullName(fn)
+	if e.inInit && fn.Name() == "init" && fn != e.stack[0] {
+		e.abstracted["init of "+fn.Pkg.Pkg.Path()]++
+		return nil, reach
+	}
 	// ghost intrinsics
 	switch fn.Name() {
 	case "old":
